@@ -2,8 +2,20 @@
 // a real MeterProvider / Meter / Counter / UpDownCounter of the repo's working tree, 1..4 explicit MetricReader
 // subclasses collected explicitly, driven by the op lines the Lean model driver (lean/Driver/C06.lean) also reads.
 //
-//   met cfg <D|C,...> <views: n:c|n:u,... or -> ; create <name> <cl|cd|ul|ud> ; add <handle> <attr> <value> ; collect <r>
-//       ; race <handle> <threads T> <adds N> <r> <collections K>
+//   met cfg <D|C|P|Q[~m],...> <views: n:c|n:u,... or -> ; create <name> <cl|cd|ul|ud> [n] ; add <handle> <attr> <value> ; collect <r>
+//       ; race <handle> <threads T> <adds N> <r> <collections K> ; flush ; shutdown
+//
+// `create ... n`: the instrument is created on a second meter "n" of the same provider (the views select meter "m" only, so its
+// streams are the default ones); an instrument of the same name on the other meter is a different instrument.  Its streams
+// are printed with the prefix `n:`.
+// reader P / Q: a temporality selector by instrument type (P: delta for Counter, cumulative for UpDownCounter - the OTLP
+// "delta preference"; Q the other way round).  `~m` (m = 0..2): the reader is added through the
+// AddMetricReader(reader, MetricFilter) overload; the filter's TestMetric answers by the last digit x of the stream
+// name: (x+m)%3 = 0 accept, 1 drop, 2 accept-partial, and TestAttributes then accepts the attribute sets a with
+// (a+m) even.  `flush` / `shutdown` = MeterProvider::ForceFlush / Shutdown: neither consumes a measurement, and a
+// reader may go on collecting afterwards.  Instruments are created through the (name) / (name, description) /
+// (name, description, unit) forms in rotation by instrument, every third view carries a description: the exported
+// descriptor must show them ("?desc" / "?unit" otherwise).
 //
 // `race` is the supporting real-thread run for "measurements recorded concurrently with collections": reader r
 // collects once, then T recorder threads each Add 1 unit N times (thread t to attribute set t%3+1) through the handle
@@ -15,6 +27,7 @@
 // collection (the harness makes the system clock advance around every collection, so the windows are disjoint
 // and a clock tie cannot occur), "?" anything else.  Double values are fed as k * 2^-10 and printed as k.
 #include "common.h"
+#include "metrics_factories.h"
 
 #include <algorithm>
 #include <chrono>
@@ -27,6 +40,7 @@
 #include "opentelemetry/metrics/sync_instruments.h"
 #include "opentelemetry/sdk/common/global_log_handler.h"
 #include "opentelemetry/sdk/metrics/data/metric_data.h"
+#include "opentelemetry/sdk/metrics/export/metric_filter.h"
 #include "opentelemetry/sdk/metrics/export/metric_producer.h"
 #include "opentelemetry/sdk/metrics/meter_context.h"
 #include "opentelemetry/sdk/metrics/meter_provider.h"
@@ -60,16 +74,27 @@ static TimeNs tick()
 class TestReader : public sdkm::MetricReader
 {
 public:
-  explicit TestReader(sdkm::AggregationTemporality t) : t_(t) {}
-  sdkm::AggregationTemporality GetAggregationTemporality(sdkm::InstrumentType) const noexcept override
+  explicit TestReader(char mode) : mode_(mode) {}
+  sdkm::AggregationTemporality GetAggregationTemporality(sdkm::InstrumentType t) const noexcept override
   {
-    return t_;
+    const bool counter = t == sdkm::InstrumentType::kCounter;
+    switch (mode_)
+    {
+      case 'D':
+        return sdkm::AggregationTemporality::kDelta;
+      case 'P':
+        return counter ? sdkm::AggregationTemporality::kDelta : sdkm::AggregationTemporality::kCumulative;
+      case 'Q':
+        return counter ? sdkm::AggregationTemporality::kCumulative : sdkm::AggregationTemporality::kDelta;
+      default:
+        return sdkm::AggregationTemporality::kCumulative;
+    }
   }
 
 private:
   bool OnForceFlush(std::chrono::microseconds) noexcept override { return true; }
   bool OnShutDown(std::chrono::microseconds) noexcept override { return true; }
-  sdkm::AggregationTemporality t_;
+  char mode_;
 };
 
 struct Handle
@@ -88,15 +113,17 @@ struct World
   sdkm::MeterContext *ctx = nullptr;
   std::shared_ptr<sdkm::MeterProvider> provider;
   nostd::shared_ptr<apim::Meter> meter;
+  nostd::shared_ptr<apim::Meter> meter_n;  // the second meter, requested on first use
   std::vector<std::unique_ptr<Handle>> handles;
   std::vector<std::pair<TimeNs, TimeNs>> windows;
-  TimeNs sdk_start = 0;
+  TimeNs sdk_start = 0;              // exact, when the construction path used exposes the MeterContext
+  TimeNs sdk_lo = 0, sdk_hi = -1;     // else: the window in which the provider was constructed (disjoint from every collection window)
   size_t nadd      = 0;  // `add` operations so far: the overload used rotates with it (all overloads must record the same)
 
   std::string ts(common::SystemTimestamp t) const
   {
     TimeNs v = t.time_since_epoch().count();
-    if (v == sdk_start) return "sdk";
+    if (ctx ? v == sdk_start : (sdk_lo < v && v <= sdk_hi)) return "sdk";
     for (size_t k = 0; k < windows.size(); k++)
       if (windows[k].first < v && v <= windows[k].second) return "#" + std::to_string(k + 1);
     return "?";
@@ -137,15 +164,21 @@ static std::vector<std::string> split(const std::string &s, char c)
   return v;
 }
 
-static bool setup(World &w, const std::vector<std::string> &op)
+static bool setup(World &w, const std::vector<std::string> &op, uint64_t hash)
 {
   if (op.size() != 3 || op[0] != "cfg") return false;
-  std::vector<sdkm::AggregationTemporality> temps;
+  std::vector<std::pair<char, int>> temps;  // (mode, filter 0..2 or -1)
   for (auto &r : split(op[1], ','))
   {
-    if (r == "D") temps.push_back(sdkm::AggregationTemporality::kDelta);
-    else if (r == "C") temps.push_back(sdkm::AggregationTemporality::kCumulative);
-    else return false;
+    if (r.size() != 1 && r.size() != 3) return false;
+    if (r[0] != 'D' && r[0] != 'C' && r[0] != 'P' && r[0] != 'Q') return false;
+    int flt = -1;
+    if (r.size() == 3)
+    {
+      if (r[1] != '~' || r[2] < '0' || r[2] > '2') return false;
+      flt = r[2] - '0';
+    }
+    temps.emplace_back(r[0], flt);
   }
   if (temps.empty() || temps.size() > 4) return false;
   if (op[2] != "-")
@@ -159,27 +192,62 @@ static bool setup(World &w, const std::vector<std::string> &op)
     }
     if (w.views.size() > 4) return false;
   }
-  std::unique_ptr<sdkm::ViewRegistry> registry(new sdkm::ViewRegistry());
-  std::unique_ptr<sdkm::MeterContext> ctx(new sdkm::MeterContext(std::move(registry)));
-  w.ctx       = ctx.get();
-  w.sdk_start = w.ctx->GetSDKStartTime().time_since_epoch().count();
-  w.provider.reset(new sdkm::MeterProvider(std::move(ctx)));
+  // provider, context, registry, views and selectors through the constructors or the *Factory::Create overloads, chosen by
+  // the hash of the case text (metrics_factories.h); the views are either put into the ViewRegistry that is handed to the
+  // provider, or added with MeterProvider::AddView afterwards (then the overloads without a registry are used as well)
+  std::unique_ptr<sdkm::ViewRegistry> registry;
+  if (vhm::mix(hash, 1) % 2) registry = vhm::make_registry(hash);
+  auto make_it = [&]() {
+    w.sdk_lo    = tick();
+    auto built  = vhm::make_provider(hash, std::move(registry), nullptr, nullptr);
+    w.provider  = built.provider;
+    w.ctx       = built.ctx;
+    w.sdk_hi    = tick();
+    if (w.ctx) w.sdk_start = w.ctx->GetSDKStartTime().time_since_epoch().count();
+  };
+  const bool views_first = registry != nullptr;
+  if (!views_first) make_it();
   for (size_t g = 0; g < w.views.size(); g++)
   {
     std::string iname = "i" + std::to_string(w.views[g].first);
-    std::unique_ptr<sdkm::InstrumentSelector> isel(new sdkm::InstrumentSelector(
-        w.views[g].second ? sdkm::InstrumentType::kCounter : sdkm::InstrumentType::kUpDownCounter, iname, ""));
-    std::unique_ptr<sdkm::MeterSelector> msel(new sdkm::MeterSelector("m", "", ""));
+    auto isel = vhm::make_isel(vhm::mix(hash, 100 + g), w.views[g].second ? sdkm::InstrumentType::kCounter : sdkm::InstrumentType::kUpDownCounter, iname, "");
+    auto msel = vhm::make_msel(vhm::mix(hash, 200 + g), "m", "", "");
     // every other view names the aggregation explicitly (sum - what counters and up-down counters have by default anyway)
-    std::unique_ptr<sdkm::View> view(g % 2 == 1 ? new sdkm::View("v" + std::to_string(g), "", "", sdkm::AggregationType::kSum)
-                                                : new sdkm::View("v" + std::to_string(g)));
-    w.provider->AddView(std::move(isel), std::move(msel), std::move(view));
+    // ... and every third one carries a description, which replaces the instrument's in the exported descriptor
+    const std::string vdesc = g % 3 == 2 ? "vd" + std::to_string(g) : "";
+    auto view = vhm::make_view(vhm::mix(hash, 300 + g), "v" + std::to_string(g), vdesc, "",
+                               g % 2 == 1 ? sdkm::AggregationType::kSum : sdkm::AggregationType::kDefault);
+    if (views_first) registry->AddView(std::move(isel), std::move(msel), std::move(view));
+    else w.provider->AddView(std::move(isel), std::move(msel), std::move(view));
   }
+  if (views_first) make_it();
   for (auto t : temps)
   {
-    auto r = std::make_shared<TestReader>(t);
+    auto r = std::make_shared<TestReader>(t.first);
     w.readers.push_back(r);
-    w.provider->AddMetricReader(r);
+    if (t.second < 0) w.provider->AddMetricReader(r);
+    else
+    {
+      const int m = t.second;
+      auto last_digit = [](nostd::string_view name) { return name.empty() ? 0 : (name[name.size() - 1] - '0'); };
+      auto test_metric = [m, last_digit](const opentelemetry::sdk::instrumentationscope::InstrumentationScope &,
+                                         nostd::string_view name, const sdkm::InstrumentType &, nostd::string_view) {
+        int x = (last_digit(name) + m) % 3;
+        return x == 0 ? sdkm::MetricFilter::MetricFilterResult::kAccept
+                      : (x == 1 ? sdkm::MetricFilter::MetricFilterResult::kDrop
+                                : sdkm::MetricFilter::MetricFilterResult::kAcceptPartial);
+      };
+      auto test_attrs = [m](const opentelemetry::sdk::instrumentationscope::InstrumentationScope &, nostd::string_view,
+                            const sdkm::InstrumentType &, nostd::string_view, const sdkm::PointAttributes &attrs) {
+        long long a = 0;
+        auto it     = attrs.GetAttributes().find("k");
+        if (it != attrs.GetAttributes().end() && nostd::holds_alternative<int64_t>(it->second))
+          a = nostd::get<int64_t>(it->second);
+        return (a + m) % 2 == 0 ? sdkm::MetricFilter::AttributesFilterResult::kAccept
+                                : sdkm::MetricFilter::AttributesFilterResult::kDrop;
+      };
+      w.provider->AddMetricReader(r, sdkm::MetricFilter::Create(test_metric, test_attrs));
+    }
   }
   w.meter = w.provider->GetMeter("m");
   tick();
@@ -221,7 +289,7 @@ static std::string attr_index(const sdkm::PointAttributes &attrs)
   return std::to_string(a);
 }
 
-static std::string stream_label(const World &w, const sdkm::InstrumentDescriptor &d)
+static std::string stream_label(const World &w, const sdkm::InstrumentDescriptor &d, bool on_n)
 {
   std::string kind;
   if (d.type_ == sdkm::InstrumentType::kCounter) kind = "c";
@@ -231,9 +299,25 @@ static std::string stream_label(const World &w, const sdkm::InstrumentDescriptor
   const std::string &n = d.name_;
   long long x;
   if (n.size() < 2 || !parse_nat(n.substr(1), x)) return "?name:" + n;
-  if (n[0] == 'i') return std::to_string(x) + "." + kind + ".0";
-  if (n[0] == 'v' && static_cast<size_t>(x) < w.views.size())
+  // the descriptor must carry the description / unit the instrument was created with (the view's description when it
+  // has one): variant = (instrument name + kind) % 3, see `create`
+  auto desc_ok = [&](long long iname, const std::string &view_desc) {
+    int ki      = (kind[0] == 'c' ? 0 : 2) + (kind[1] == 'd' ? 1 : 0);
+    int variant = static_cast<int>((iname + ki) % 3);
+    std::string want_desc = variant >= 1 ? "d" + std::to_string(iname) : "";
+    if (!view_desc.empty()) want_desc = view_desc;
+    std::string want_unit = variant == 2 ? "By" : "";
+    return std::string(d.description_ != want_desc ? "?desc:" + d.description_ : (d.unit_ != want_unit ? "?unit:" + d.unit_ : ""));
+  };
+  if (n[0] == 'i')
   {
+    std::string bad = desc_ok(x, "");
+    return bad.empty() ? std::to_string(x) + "." + kind + ".0" : bad;
+  }
+  if (n[0] == 'v' && static_cast<size_t>(x) < w.views.size() && !on_n)
+  {
+    std::string bad = desc_ok(w.views[x].first, x % 3 == 2 ? "vd" + std::to_string(x) : "");
+    if (!bad.empty()) return bad;
     size_t pos = 0;
     for (size_t g = 0; g < static_cast<size_t>(x); g++)
       if (w.views[g] == w.views[x]) pos++;
@@ -242,9 +326,11 @@ static std::string stream_label(const World &w, const sdkm::InstrumentDescriptor
   return "?name:" + n;
 }
 
-static std::string show_md(const World &w, const sdkm::MetricData &md)
+static std::string show_md(const World &w, const sdkm::MetricData &md, const std::string &scope)
 {
-  std::string s = stream_label(w, md.instrument_descriptor);
+  if (scope != "m" && scope != "n") return "?scope:" + scope + " ? ? ? {}";
+  std::string s = stream_label(w, md.instrument_descriptor, scope == "n");
+  if (scope == "n" && s[0] != '?') s = "n:" + s;
   s += md.aggregation_temporality == sdkm::AggregationTemporality::kDelta
            ? " D "
            : (md.aggregation_temporality == sdkm::AggregationTemporality::kCumulative ? " C " : " ? ");
@@ -290,13 +376,16 @@ static std::string handle_met(const std::vector<std::string> &t)
   auto ops = vh::split_ops(t, 1);
   if (ops.empty()) return "bad-op";
   World w;
-  if (!setup(w, ops[0])) return "bad-op";
+  if (!setup(w, ops[0], vhm::case_hash(t))) return "bad-op";
   std::vector<std::string> outs{"ok"};
   for (size_t i = 1; i < ops.size(); i++)
   {
     auto &op = ops[i];
-    if (op.size() == 3 && op[0] == "create")
+    if ((op.size() == 3 || (op.size() == 4 && op[3] == "n")) && op[0] == "create")
     {
+      const bool on_n = op.size() == 4;
+      if (on_n && !w.meter_n) w.meter_n = w.provider->GetMeter("n");
+      auto &the_meter = on_n ? w.meter_n : w.meter;
       long long n;
       if (!parse_nat(op[1], n) || n >= 8) return "bad-op";
       std::unique_ptr<Handle> h(new Handle);
@@ -306,11 +395,20 @@ static std::string handle_met(const std::vector<std::string> &t)
         // the buffer dies right after the call, so the SDK must own its copy
         std::unique_ptr<std::string> name(new std::string("i" + std::to_string(n)));
         nostd::string_view nm(name->data(), name->size());
-        if (op[2] == "cl") h->cl = w.meter->CreateUInt64Counter(nm);
-        else if (op[2] == "cd") h->cd = w.meter->CreateDoubleCounter(nm);
-        else if (op[2] == "ul") h->ul = w.meter->CreateInt64UpDownCounter(nm);
-        else if (op[2] == "ud") h->ud = w.meter->CreateDoubleUpDownCounter(nm);
-        else return "bad-op";
+        // the three forms (name) / (name, description) / (name, description, unit) rotate by instrument: every handle of
+        // one instrument uses the same form (the stream keeps the descriptor of the handle that created it)
+        int ki = op[2] == "cl" ? 0 : (op[2] == "cd" ? 1 : (op[2] == "ul" ? 2 : (op[2] == "ud" ? 3 : -1)));
+        if (ki < 0) return "bad-op";
+        int variant = static_cast<int>((n + ki) % 3);
+        std::unique_ptr<std::string> desc(new std::string("d" + std::to_string(n)));
+        std::unique_ptr<std::string> unit(new std::string("By"));
+        nostd::string_view ds(desc->data(), desc->size()), us(unit->data(), unit->size());
+#define CREATE(F) (variant == 0 ? the_meter->F(nm) : (variant == 1 ? the_meter->F(nm, ds) : the_meter->F(nm, ds, us)))
+        if (ki == 0) h->cl = CREATE(CreateUInt64Counter);
+        else if (ki == 1) h->cd = CREATE(CreateDoubleCounter);
+        else if (ki == 2) h->ul = CREATE(CreateInt64UpDownCounter);
+        else h->ud = CREATE(CreateDoubleUpDownCounter);
+#undef CREATE
       }
       outs.push_back("h" + std::to_string(w.handles.size()));
       w.handles.push_back(std::move(h));
@@ -371,7 +469,41 @@ static std::string handle_met(const std::vector<std::string> &t)
       }
       else
       {
-        with_attrs(a, [&](const common::KeyValueIterable &kv) { add_kv(kv, ov % 2 == 1); });
+        // the attribute set through each of the API's forms in rotation - a KeyValueIterable, a container (the template
+        // overloads) and an initializer list, each with and without a Context: they must all record the same measurement
+        const bool with_ctx = ov % 2 == 1;
+        const size_t form   = (ov / 2) % 3;
+        auto through = [&](auto &inst, auto val) {
+          std::string sval = "s" + std::to_string(a);
+          if (form == 1)
+          {
+            std::map<std::string, common::AttributeValue> m{{"k", static_cast<int64_t>(a)}};
+            if (a % 3 == 2) m["z"] = nostd::string_view(sval);
+            else if (a % 3 == 0) m["b"] = true;
+            if (with_ctx) inst->Add(val, m, octx);
+            else inst->Add(val, m);
+          }
+          else if (a % 3 == 1)
+          {
+            if (with_ctx) inst->Add(val, {{"k", static_cast<int64_t>(a)}}, octx);
+            else inst->Add(val, {{"k", static_cast<int64_t>(a)}});
+          }
+          else if (a % 3 == 2)
+          {
+            if (with_ctx) inst->Add(val, {{"z", nostd::string_view(sval)}, {"k", static_cast<int64_t>(a)}}, octx);
+            else inst->Add(val, {{"z", nostd::string_view(sval)}, {"k", static_cast<int64_t>(a)}});
+          }
+          else
+          {
+            if (with_ctx) inst->Add(val, {{"k", static_cast<int64_t>(a)}, {"b", true}}, octx);
+            else inst->Add(val, {{"k", static_cast<int64_t>(a)}, {"b", true}});
+          }
+        };
+        if (form == 0) with_attrs(a, [&](const common::KeyValueIterable &kv) { add_kv(kv, with_ctx); });
+        else if (h.cl) through(h.cl, static_cast<uint64_t>(v));
+        else if (h.cd) through(h.cd, dv);
+        else if (h.ul) through(h.ul, static_cast<int64_t>(v));
+        else through(h.ud, dv);
       }
       outs.push_back("ok");
     }
@@ -379,19 +511,25 @@ static std::string handle_met(const std::vector<std::string> &t)
     {
       long long r;
       if (!parse_nat(op[1], r) || static_cast<size_t>(r) >= w.readers.size()) return "bad-op";
-      std::vector<sdkm::MetricData> got;
+      std::vector<std::pair<std::string, sdkm::MetricData>> got;
       TimeNs before = tick();
       w.readers[r]->Collect([&](sdkm::ResourceMetrics &rm) {
         for (auto &sm : rm.scope_metric_data_)
-          for (auto &md : sm.metric_data_) got.push_back(md);
+          for (auto &md : sm.metric_data_) got.emplace_back(sm.scope_->GetName(), md);
         return true;
       });
       TimeNs after = tick();
       w.windows.emplace_back(before, after);
       std::vector<std::string> mds;
-      for (auto &md : got) mds.push_back(show_md(w, md));
+      for (auto &md : got) mds.push_back(show_md(w, md.second, md.first));
       std::sort(mds.begin(), mds.end());
       outs.push_back("[" + vh::join(mds, " | ") + "]");
+    }
+    else if (op.size() == 1 && (op[0] == "flush" || op[0] == "shutdown"))
+    {
+      // neither takes a measurement away from anyone; TestReader's OnForceFlush / OnShutDown succeed
+      bool ok = op[0] == "flush" ? w.provider->ForceFlush() : w.provider->Shutdown();
+      outs.push_back(ok ? "ok" : "failed");
     }
     else if (op.size() == 6 && op[0] == "race")
     {
@@ -411,26 +549,26 @@ static std::string handle_met(const std::vector<std::string> &t)
           else h.ud->Add(1.0 / 1024.0, kv);
         });
       };
-      bool delta = w.readers[r]->GetAggregationTemporality(sdkm::InstrumentType::kCounter) ==
-                   sdkm::AggregationTemporality::kDelta;
       std::map<std::string, std::map<long long, long long>> acc;  // label -> attr -> units
       bool bad = false;
       auto collect_once = [&]() {
         TimeNs before = tick();
-        std::vector<sdkm::MetricData> got;
+        std::vector<std::pair<std::string, sdkm::MetricData>> got;
         w.readers[r]->Collect([&](sdkm::ResourceMetrics &rm) {
           for (auto &sm : rm.scope_metric_data_)
-            for (auto &md : sm.metric_data_) got.push_back(md);
+            for (auto &md : sm.metric_data_) got.emplace_back(sm.scope_->GetName(), md);
           return true;
         });
         TimeNs after = tick();
         w.windows.emplace_back(before, after);
-        for (auto &md : got)
+        for (auto &scoped : got)
         {
-          std::string text = show_md(w, md);  // "label T start end {a=v,...}"
+          auto &md         = scoped.second;
+          std::string text = show_md(w, md, scoped.first);  // "label T start end {a=v,...}"
           size_t sp = text.find(' '), br = text.find('{');
           std::string label = text.substr(0, sp);
           auto &m           = acc[label];
+          const bool delta  = md.aggregation_temporality == sdkm::AggregationTemporality::kDelta;
           if (!delta) m.clear();
           std::string body = text.substr(br + 1, text.size() - br - 2);
           if (body.empty()) continue;
